@@ -106,6 +106,35 @@ theorem add_boundary_refusals (y : Sys) (m : Id) (t : BType) (ext : Bool) (dlb d
     · rfl
     · simp [h]
 
+/-- `remove_genes(model, genes, remove_reactions=False)` on the content: the genes leave the model, nothing else about genes changes; every reaction
+stays with its bounds and stoichiometry; the genes a reaction lists afterwards are genes it listed before, none of them removed (that the pruned
+rule is the Boolean function of the old rule with the removed genes absent is `C08.remover_equivalent`) -/
+theorem remove_genes_spec (s : St) (g : Good s) (ks : Id → Bool) :
+    let s' := removeGenesRaw s ks
+    (∀ x, ks x = true → s'.hasG x = false) ∧ (∀ x, ks x = false → s'.hasG x = s.hasG x) ∧
+    (∀ r x, s.hasR r = true → s'.rg r x = true → ks x = false ∧ s.rg r x = true) ∧
+    s'.hasR = s.hasR ∧ s'.lb = s.lb ∧ s'.ub = s.ub ∧ s'.st = s.st ∧ s'.hasM = s.hasM ∧ s'.gf = s.gf := by
+  refine ⟨fun x hx => by simp [removeGenesRaw, hx], fun x hx => by simp [removeGenesRaw, hx], ?_, rfl, rfl, rfl, rfl, rfl, rfl⟩
+  intro r x hr hrg
+  have hrg' : (if s.hasR r = true then (genesOpt (prunedRule s ks r)).contains x else s.rg r x) = true := hrg
+  rw [if_pos hr] at hrg'
+  have hx : x ∈ genesOpt (prunedRule s ks r) := by simpa using hrg'
+  unfold prunedRule at hx
+  cases hrule : s.rule r with
+  | none => simp [hrule, genesOpt] at hx
+  | some t =>
+    simp only [hrule, hr, if_true] at hx
+    cases hrem : GPRM.remove ks t with
+    | none => simp [hrem, genesOpt] at hx
+    | some t' =>
+      simp only [hrem, genesOpt] at hx
+      obtain ⟨a, b⟩ := GPRM.genes_remove ks t t' hrem x hx
+      exact ⟨b, (g.wf.rg_rule r x hr).2 (by simpa [hrule, genesOpt] using a)⟩
+
+/-- the whole operation keeps the model consistent (cross-references, solver) -/
+theorem remove_genes_step (y : Sys) (g : Good y.s) (gs : List Id) (rr : Bool) : Step y (apply y (.removeGenes gs rr)).1 :=
+  apply_step y g (.removeGenes gs rr) rfl trivial
+
 /-- `Model.add_metabolites([Metabolite(m)])` for an id new to the model does what it documents and nothing else: the metabolite is listed, lists no
 reaction, has an (empty) steady-state row; every other metabolite, row and back-reference, and everything about reactions, genes, variables,
 objective and direction is untouched -/
